@@ -10,7 +10,9 @@
 (*   call lines   : response = sequential reference; never a crash;        *)
 (*   thread lines : every thread finished (no deadlock within the bound);  *)
 (*   reopen lines : re-creating the instance right after the drop          *)
-(*                  succeeds within the bound and finds the data.          *)
+(*                  succeeds within the bound and finds the data;          *)
+(*   regeom lines : the same on a location holding a tree of another depth *)
+(*                  (an answer within the bound, never a hang).            *)
 (***************************************************************************)
 EXTENDS Integers, Sequences, TLC, Json, IOUtils
 
@@ -29,6 +31,8 @@ LineOK(e) ==
     [] e.t = "call" -> e.call \in DOMAIN ref /\ e.resp = ref[e.call]
     [] e.t = "thread" -> e.finished
     [] e.t = "reopen" -> e.res = "ok" /\ e.ms <= ReopenBoundMs /\ e.leaf_ok /\ e.leaves = e.n + 1
+    \* a location that holds a tree of another depth: an answer (success, or a refusal) within the bound, never a hang
+    [] e.t = "regeom" -> e.res \in {"ok", "err"} /\ e.ms <= ReopenBoundMs
     [] e.t = "handover" -> e.res = "ok" /\ e.ms <= ReopenBoundMs      \* another thread is still dropping the previous instance
     [] OTHER -> TRUE
 
